@@ -16,6 +16,8 @@ ap.add_argument("--checks", default="")
 ap.add_argument("--tests", nargs="*", default=[])
 ap.add_argument("--skip-confirm", action="store_true")
 a = ap.parse_args()
+# the checks run in VERIF_ROOT (default /verif; a private copy keeps Generated/ and the Lean build of /verif undisturbed)
+VROOT = os.environ.get("VERIF_ROOT", "/verif")
 
 env = dict(os.environ, GOFLAGS="-mod=mod", GOPROXY="off")
 env.pop("GOSUMDB", None); env.pop("GOTOOLCHAIN", None)
@@ -90,9 +92,9 @@ if a.checks:
     try:
         for c in a.checks.split(","):
             t0 = time.time()
-            ev = "/verif/evidence/%s.json" % c
+            ev = VROOT + "/evidence/%s.json" % c
             keep = open(ev).read() if os.path.exists(ev) else None
-            rc, out = sh("./check %s --tier quick" % c, cwd="/verif")
+            rc, out = sh("./check %s --tier quick" % c, cwd=VROOT)
             if keep is not None:
                 # the evidence file committed must come from a run on the unchanged tree
                 open(ev, "w").write(keep)
@@ -103,7 +105,7 @@ if a.checks:
         env.pop("VERIF_REPO", None)
         sh("git -C /repo worktree remove --force %s" % awt)
         # leave Generated/ in the state of the real repository
-        sh("/verif/.work/bin/factgen -repo /repo -out /verif/lean/ConduitModel/ConduitModel/Generated -json /tmp/facts_restore.json")
+        sh(VROOT + "/.work/bin/factgen -repo /repo -out " + VROOT + "/lean/ConduitModel/ConduitModel/Generated -json /tmp/facts_restore_%s.json" % a.name)
 dst = "/verif/seeded/%s" % a.name
 os.makedirs(dst, exist_ok=True)
 shutil.copy(patch, os.path.join(dst, "patch.diff"))
